@@ -110,6 +110,8 @@ class State(object):
         self.q = q; self.kind = kind; self.var = var; self.ordered = ordered; self.desc = src_desc
         self.explicit_distinct = None
         self.nested = False
+        self.varkind = kind          # kind of the query's loop variable (differs from kind after a projecting nest)
+        self.history = []            # names of the ops applied so far
 
 
 def build_base(P, chain):
@@ -148,8 +150,11 @@ def multiset(kind, items):
 
 
 class Mismatch(object):
-    def __init__(self, step, cls, detail):
+    def __init__(self, step, cls, detail, st=None, op=None):
         self.step = step; self.cls = cls; self.detail = detail
+        self.op = op                  # the op / terminal (list) that was judged
+        self.info = None if st is None else {'kind': st.kind, 'ordered': st.ordered, 'explicit': st.explicit_distinct,
+                                            'nested': st.nested, 'history': list(st.history)}
     def __repr__(self): return 'Mismatch(%s, %s, %s)' % (self.step, self.cls, self.detail)
 
 
@@ -192,9 +197,7 @@ def apply_op(P, st, op):
         else:
             # where(): original names of the query
             if st.var == 'p': src = tmpl.format(v='p.' + f)
-            elif kind == 'ent': src = tmpl.format(v='x.' + f)
-            elif kind == 'pair': src = tmpl.format(v=expr_for(kind, 'x', f))
-            else: src = tmpl.format(v='x')
+            else: src = tmpl.format(v=expr_for(st.varkind, 'x', f))
             q = st.q.where(src)
         new = State(q, kind, st.var, st.ordered, st.desc + '.%s(%s)' % (name, op[1]))
         new.explicit_distinct = st.explicit_distinct; new.nested = st.nested
@@ -240,6 +243,7 @@ def apply_op(P, st, op):
         q = orm.select(src, {'QR': qr})
         new = State(q, newkind, 'x', st.ordered, 'select(%s | QR = %s.%s)' % (src, st.desc, label))
         new.nested = True
+        new.varkind = kind
         return new, ('nest', window, pf, (lambda it: getattr(it, proj)) if proj else None, kind)
     raise ValueError(op)
 
@@ -380,15 +384,17 @@ def check_chain(chain, want_trace=False):
                 except Unsupported:
                     raise
                 except Exception as e:          # the implementation refused / crashed while building the query
-                    mism.append(Mismatch(i, '%s:%s' % (op_class(st, op), exc_name(e)), {'query': st.desc, 'op': op, 'error': str(e)[:200]})); return mism, trace
+                    mism.append(Mismatch(i, '%s:%s' % (op_class(st, op), exc_name(e)), {'query': st.desc, 'op': op, 'error': str(e)[:200]}, st, op)); return mism, trace
+                if op[0] not in ('nest', 'nestpage'): new.varkind = st.varkind
+                new.history = st.history + [op[0]]
                 Rn, err = run_list(new.q)
                 if err:
-                    mism.append(Mismatch(i, '%s:%s' % (op_class(st, op), err), new.desc)); return mism, trace
+                    mism.append(Mismatch(i, '%s:%s' % (op_class(st, op), err), new.desc, st, op)); return mism, trace
                 ok, suffix, want = judge_op(st, R, new, Rn, exp)
                 trace.append({'query': new.desc, 'R': canon_list(new.kind, Rn)})
                 if not ok:
                     mism.append(Mismatch(i, '%s:%s' % (op_class(st, op), suffix),
-                                         {'query': new.desc, 'got': canon_list(new.kind, Rn), 'want': want, 'R_before': canon_list(st.kind, R)}))
+                                         {'query': new.desc, 'got': canon_list(new.kind, Rn), 'want': want, 'R_before': canon_list(st.kind, R)}, st, op))
                 st, R = new, Rn
             term = chain.get('term')
             if term:
@@ -431,7 +437,7 @@ def judge_terminal(P, st, R, term):
         try:
             got = list(st.q.random(n))
         except Exception as e:
-            return Mismatch('term', cls + ':' + exc_name(e), st.desc)
+            return Mismatch('term', cls + ':' + exc_name(e), st.desc, st, term)
         ms_all = multiset(kind, R)
         ms_got = multiset(kind, got)
         pool = list(ms_all)
@@ -440,7 +446,7 @@ def judge_terminal(P, st, R, term):
             if x in pool: pool.remove(x)
             else: ok = False
         if not ok:
-            return Mismatch('term', cls + ':not-a-sample', {'query': st.desc, 'n': n, 'got': canon_list(kind, got), 'R': canon_list(kind, R)})
+            return Mismatch('term', cls + ':not-a-sample', {'query': st.desc, 'n': n, 'got': canon_list(kind, got), 'R': canon_list(kind, R)}, st, term)
         return None
     if t == 'delete':
         bulk = term[1]
@@ -450,12 +456,12 @@ def judge_terminal(P, st, R, term):
             n = st.q.delete(bulk=bulk)
             orm.flush()
         except Exception as e:
-            return Mismatch('term', cls + ':' + exc_name(e), st.desc)
+            return Mismatch('term', cls + ':' + exc_name(e), st.desc, st, term)
         after = sorted(row[0] for row in P._database_.execute('select id from P').fetchall())
         want_after = sorted(set(before) - set(ids))
         if after != want_after or n != len(ids):
             return Mismatch('term', cls + (':bulk' if bulk else ':plain') + ':wrong-rows-deleted',
-                            {'query': st.desc, 'selected': ids, 'returned': n, 'remaining': after, 'want_remaining': want_after})
+                            {'query': st.desc, 'selected': ids, 'returned': n, 'remaining': after, 'want_remaining': want_after}, st, term)
         return None
     got = real_terminal(st, term)
     want = py_terminal(kind, R, term)
@@ -472,5 +478,52 @@ def judge_terminal(P, st, R, term):
     if not ok:
         if isinstance(got, str) and got.startswith('EXC:') and want != got: cls += ':' + got
         else: cls += ':wrong-value'
-        return Mismatch('term', cls, {'query': st.desc, 'term': term, 'got': got, 'want': want, 'R': canon_list(kind, R)})
+        return Mismatch('term', cls, {'query': st.desc, 'term': term, 'got': got, 'want': want, 'R': canon_list(kind, R)}, st, term)
     return None
+
+
+# ---------------------------------------------------------------------------------------------- finding keys
+
+AGGR = ('count', 'sum', 'min', 'max', 'avg', 'group_concat')
+
+def classify(m):
+    """Finding key of a mismatch: the root-cause class when the mismatch has exactly the shape of a recorded defect,
+    otherwise 'unlisted:<fine-grained class>' (which the runner reports as a VIOLATION)."""
+    info, op, cls = m.info, m.op, m.cls
+    if info is None or op is None: return 'unlisted:' + cls
+    name = op[0]
+    suffix = cls.split(':', 1)[1] if ':' in cls else ''
+    nested = info['nested']
+    projection = info['kind'] != 'ent'
+    if name in ('nest', 'nestpage'):
+        has_if = name == 'nest' and op[3] is not None
+        has_proj = name == 'nest' and op[4] is not None
+        if suffix == 'EXC:KeyError' and 'kw' in info['history']: return 'limited-subquery-KeyError-after-keyword-filter'
+        if suffix == 'wrong-rows':
+            if has_if: return 'limited-subquery-filter-applied-before-limit'
+            if has_proj: return 'limited-subquery-distinct-applied-before-limit'
+            if info['explicit'] is not None and projection: return 'limited-subquery-drops-explicit-distinct-flag'
+        return 'unlisted:' + cls
+    if nested:
+        if name in ('filter', 'where', 'kw') and suffix == 'wrong-rows': return 'limited-subquery-filter-applied-before-limit'
+        if name == 'order' and suffix == 'not-a-permutation': return 'limited-subquery-order-applied-before-limit'
+        if name in ('distinct', 'without_distinct') and suffix == 'wrong-rows': return 'limited-subquery-distinct-applied-before-limit'
+        if name in AGGR and suffix == 'EXC:AssertionError': return 'limited-subquery-aggregate-AssertionError'
+        if name == 'first' and suffix == 'wrong-value': return 'limited-subquery-order-applied-before-limit'
+        if name == 'random' and suffix == 'not-a-sample': return 'limited-subquery-order-applied-before-limit'
+        if name == 'delete' and suffix == 'bulk:wrong-rows-deleted': return 'limited-subquery-bulk-delete-ignores-limit'
+        return 'unlisted:' + cls
+    auto_distinct_on = projection and not info['ordered'] and info['explicit'] is None
+    if name == 'order' and suffix == 'not-a-permutation' and auto_distinct_on: return 'order_by-drops-automatic-distinct'
+    if name == 'random' and suffix == 'not-a-sample' and auto_distinct_on: return 'random-drops-automatic-distinct'
+    if name == 'count' and suffix == 'wrong-value' and isinstance(m.detail, dict) and isinstance(m.detail.get('got'), int) \
+            and m.detail['got'] < m.detail['want']:
+        if info['kind'] == 'pair': return 'count-tuple-query-counts-distinct-first-column'
+        if projection and (info['ordered'] or info['explicit'] is False): return 'count-scalar-query-always-count-distinct'
+    if name in ('sum', 'avg') and suffix == 'wrong-value' and projection and (info['explicit'] is True or auto_distinct_on):
+        return 'sum-avg-group_concat-ignore-query-distinct'
+    if name == 'group_concat' and suffix == 'wrong-value' and projection and isinstance(m.detail.get('got'), str) and isinstance(m.detail.get('want'), str):
+        if sorted(m.detail['got'].split(',')) == sorted(m.detail['want'].split(',')):
+            if info['ordered']: return 'group_concat-ignores-order_by'
+        elif info['explicit'] is True or auto_distinct_on: return 'sum-avg-group_concat-ignore-query-distinct'
+    return 'unlisted:' + cls
